@@ -44,7 +44,7 @@ func TestC11(t *testing.T) {
 	}
 	restore := faultsql.Install()
 	defer restore()
-	configs := []string{"memory", "memory-paged", "sqlite-paged", "sqlite-file", "sqlite-batch1", "sqlite-batch2", "sqlite-batch3", "sqlite-batch5", "durable", "durable-chunk400"}
+	configs := []string{"memory", "memory-paged", "sqlite-paged", "sqlite-file", "sqlite-batch1", "sqlite-batch2", "sqlite-batch3", "sqlite-batch5", "durable", "durable-chunk400", "durable-strict", "durable-strict-chunk400"}
 	batches := []int{1, 2, 3, 5, 100, 0, -1}
 	maxLen := run.Scale(6, 18)
 	if !run.Thorough() {
@@ -133,6 +133,21 @@ func TestC11(t *testing.T) {
 					}
 					for _, f := range fs {
 						one(run, cfg, st, offs, b, L, start, f)
+					}
+				}
+				if strings.HasPrefix(cfg, "durable-strict") && L > 0 {
+					// resuming from the offset of an event seen by an earlier (interrupted) replay, against a
+					// server that validates offsets: deliver exactly what follows that event, or fail
+					evs, _, rerr := st.Store.Read(context.Background(), ebu.OffsetOldest, 0)
+					if rerr == nil && len(evs) == L {
+						evOffs := []ebu.Offset{ebu.OffsetOldest}
+						for _, e := range evs {
+							evOffs = append(evOffs, e.Offset)
+						}
+						for start := 1; start <= L; start++ {
+							one(run, cfg, st, evOffs, b, L, start, fail{Kind: "none"})
+							run.Count("replays_resumed_from_an_event_offset_on_a_validating_server", 1)
+						}
 					}
 				}
 				if !strings.HasPrefix(cfg, "durable") {
